@@ -1,5 +1,204 @@
-/- Line-protocol driver for the C13 model (stub until the model exists). -/
-import ForML.Model.Sexp
-open ForML
+/- Line-protocol driver for the C13 model (ForML.Model.Actor).
 
-def main : IO Unit := driverLoop (fun _ => .atom "no-model")
+One line = one scenario:
+  (run <flavour> <op> <op> ...)
+  flavour ::= (native <sig> <bool>) | (decorated <sig> <bool>) | (wrapped <sig> callable|method|noncallable|absent)
+  sig     ::= ((pos..) (kw..) <bool varkw> (mandatory..) ((k v)..defaults))
+answer: (ok <obs> <obs> ...) with one observation per op, or bad-op.
+The user functions are the integer toy functions of harness/props/c13.py.
+-/
+import ForML.Model.Sexp
+import ForML.Model.Actor
+open ForML ForML.Actor
+
+def bool? : Sexp → Option Bool
+  | .atom "true" => some true
+  | .atom "false" => some false
+  | _ => none
+
+def kv? : Sexp → Option (Nat × Int)
+  | .list [k, v] => do pure (← k.nat?, ← v.int?)
+  | _ => none
+
+def pmap? : Sexp → Option PMap
+  | .list xs => xs.mapM kv?
+  | _ => none
+
+def sig? : Sexp → Option Sig
+  | .list [pos, kw, varkw, mand, defs] => do
+    pure { pos := ← pos.natList?, kw := ← kw.natList?, varkw := ← bool? varkw,
+           mandatory := ← mand.natList?, defaults := ← pmap? defs }
+  | _ => none
+
+def tm? : Sexp → Option TrainMap
+  | .atom "callable" => some .callable
+  | .atom "method" => some .method
+  | .atom "noncallable" => some .noncallable
+  | .atom "absent" => some .absent
+  | _ => none
+
+def flavour? : Sexp → Option FlavourSpec
+  | .list [.atom "native", s, b] => do pure (.native (← sig? s) (← bool? b))
+  | .list [.atom "decorated", s, b] => do pure (.decorated (← sig? s) (← bool? b))
+  | .list [.atom "wrapped", s, t] => do pure (.wrapped (← sig? s) (← tm? t))
+  | _ => none
+
+def errName : Err → String
+  | .typeError => "TypeError"
+  | .runtimeError => "RuntimeError"
+  | .unexpectedError => "UnexpectedError"
+  | .attributeError => "AttributeError"
+  | .noObject => "NoObject"
+
+def obsErr (e : Err) : Sexp := .list [.atom "err", .atom (errName e)]
+def obsOk (xs : List Sexp) : Sexp := .list (.atom "ok" :: xs)
+
+/-- canonical `get_params()`: effective value per key, keys ascending, each key once -/
+def insertKey (k : Nat) : List Nat → List Nat
+  | [] => [k]
+  | x :: r => if k < x then k :: x :: r else if k = x then x :: r else x :: insertKey k r
+
+def canonParams (m : PMap) : Sexp :=
+  let keys := (pkeys m).foldr insertKey []
+  .list (keys.map (fun k => .list [Sexp.ofNat k, Sexp.ofInt ((pget m k).getD 0)]))
+
+structure Machine where
+  builder : Option Spec := none
+  regs : List (Option (Obj Int)) := [none, none, none, none]
+  blobs : List (Blob Int) := [none, none, none, none]
+
+def Machine.reg (m : Machine) (r : Nat) : Option (Obj Int) := (m.regs.getD r none)
+def Machine.setReg (m : Machine) (r : Nat) (o : Obj Int) : Machine := { m with regs := m.regs.set r (some o) }
+def Machine.blob (m : Machine) (k : Nat) : Blob Int := (m.blobs.getD k none)
+def Machine.setBlob (m : Machine) (k : Nat) (b : Blob Int) : Machine := { m with blobs := m.blobs.set k b }
+
+/-- one op: new machine + observation; `none` = unparsable -/
+def stepOp (f : Flavour Int) (m : Machine) : Sexp → Option (Machine × Sexp)
+  | .list [.atom "spec", a, kw] => do
+    let a ← a.intList?; let kw ← pmap? kw
+    match mkSpec f a kw with
+    | .ok sp => pure ({ m with builder := some sp }, obsOk [])
+    | .error e => pure (m, obsErr e)
+  | .list [.atom "update", a, kw] => do
+    let a ← a.intList?; let kw ← pmap? kw
+    match m.builder with
+    | none => pure (m, obsErr .noObject)
+    | some sp => match sp.update f a kw with
+      | .ok sp' => pure ({ m with builder := some sp' }, obsOk [])
+      | .error e => pure (m, obsErr e)
+  | .list [.atom "reset", a, kw] => do
+    let a ← a.intList?; let kw ← pmap? kw
+    match m.builder with
+    | none => pure (m, obsErr .noObject)
+    | some sp => match sp.reset f a kw with
+      | .ok sp' => pure ({ m with builder := some sp' }, obsOk [])
+      | .error e => pure (m, obsErr e)
+  | .list [.atom "bpickle"] =>
+    match m.builder with
+    | none => pure (m, obsErr .noObject)
+    | some sp => match sp.repickle f with
+      | .ok sp' => pure ({ m with builder := some sp' }, obsOk [])
+      | .error e => pure (m, obsErr e)
+  | .list [.atom "build", r, a, kw] => do
+    let r ← r.nat?; let a ← a.intList?; let kw ← pmap? kw
+    match m.builder with
+    | none => pure (m, obsErr .noObject)
+    | some sp => match sp.call f a kw with
+      | .ok o => pure (m.setReg r o, obsOk [])
+      | .error e => pure (m, obsErr e)
+  | .list [.atom "train", r, x, y] => do
+    let r ← r.nat?; let x ← x.int?; let y ← y.int?
+    match m.reg r with
+    | none => pure (m, obsErr .noObject)
+    | some o => match f.train o x y with
+      | .ok o' => pure (m.setReg r o', obsOk [])
+      | .error e => pure (m, obsErr e)
+  | .list [.atom "apply", r, x] => do
+    let r ← r.nat?; let x ← x.int?
+    match m.reg r with
+    | none => pure (m, obsErr .noObject)
+    | some o => match f.apply o x with
+      | .ok v => pure (m, obsOk [Sexp.ofInt v])
+      | .error e => pure (m, obsErr e)
+  | .list [.atom "params", r] => do
+    let r ← r.nat?
+    match m.reg r with
+    | none => pure (m, obsErr .noObject)
+    | some o => pure (m, obsOk [canonParams (f.getParams o)])
+  | .list [.atom "setparams", r, kw] => do
+    let r ← r.nat?; let kw ← pmap? kw
+    match m.reg r with
+    | none => pure (m, obsErr .noObject)
+    | some o => match f.setParams o kw with
+      | .ok o' => pure (m.setReg r o', obsOk [])
+      | .error e => pure (m, obsErr e)
+  | .list [.atom "stateful"] => pure (m, obsOk [Sexp.ofBool f.isStateful])
+  | .list [.atom "getstate", r, k] => do
+    let r ← r.nat?; let k ← k.nat?
+    match m.reg r with
+    | none => pure (m, obsErr .noObject)
+    | some o =>
+      let b := f.getState o
+      pure (m.setBlob k b, obsOk [.atom (if b.isSome then "full" else "empty")])
+  | .list [.atom "setstate", r, k] => do
+    let r ← r.nat?; let k ← k.nat?
+    match m.reg r with
+    | none => pure (m, obsErr .noObject)
+    | some o => match f.setState o (m.blob k) with
+      | .ok o' => pure (m.setReg r o', obsOk [])
+      | .error e => pure (m, obsErr e)
+  | .list [.atom "setempty", r] => do
+    let r ← r.nat?
+    match m.reg r with
+    | none => pure (m, obsErr .noObject)
+    | some o => match f.setState o none with
+      | .ok o' => pure (m.setReg r o', obsOk [])
+      | .error e => pure (m, obsErr e)
+  | .list [.atom "preset", r, k] => do
+    let r ← r.nat?; let k ← k.nat?
+    match m.reg r with
+    | none => pure (m, obsErr .noObject)
+    | some o => match presetState f o (m.blob k) with
+      | .ok o' => pure (m.setReg r o', obsOk [])
+      | .error e => pure (m, obsErr e)
+  | .list [.atom "pickle", r] => do
+    let r ← r.nat?
+    match m.reg r with
+    | none => pure (m, obsErr .noObject)
+    | some o => match f.repickle o with
+      | .ok o' => pure (m.setReg r o', obsOk [])
+      | .error e => pure (m, obsErr e)
+  | .list [.atom "fapply", k, x] => do
+    let k ← k.nat?; let x ← x.int?
+    match m.builder with
+    | none => pure (m, obsErr .noObject)
+    | some sp => match functorApply f sp (m.blob k) x with
+      | .ok v => pure (m, obsOk [Sexp.ofInt v])
+      | .error e => pure (m, obsErr e)
+  | .list [.atom "ftrain", k, x, y, j] => do
+    let k ← k.nat?; let x ← x.int?; let y ← y.int?; let j ← j.nat?
+    match m.builder with
+    | none => pure (m, obsErr .noObject)
+    | some sp => match functorTrain f sp (m.blob k) x y with
+      | .ok b => pure (m.setBlob j b, obsOk [.atom (if b.isSome then "full" else "empty")])
+      | .error e => pure (m, obsErr e)
+  | _ => none
+
+def runOps (f : Flavour Int) : Machine → List Sexp → List Sexp → Option (List Sexp)
+  | _, [], acc => some acc.reverse
+  | m, op :: rest, acc =>
+    match stepOp f m op with
+    | none => none
+    | some (m', obs) => runOps f m' rest (obs :: acc)
+
+def stepC13 : Sexp → Sexp
+  | .list (.atom "run" :: fl :: ops) =>
+    match flavour? fl with
+    | none => .atom "bad-op"
+    | some fs =>
+      match runOps (fs.toFlavour toyUser) {} ops [] with
+      | none => .atom "bad-op"
+      | some obs => obsOk obs
+  | _ => .atom "bad-op"
+
+def main : IO Unit := driverLoop stepC13
